@@ -33,6 +33,7 @@ def jobs(tier):
         items.append((op, [[0, 0]], False, T, dict(params=dict(m=1, follow=1, queries=True), budget=1800, shard=6)))
         items.append((op, [[1, 1], [0, 0]], False, T, dict(params=dict(m=1, follow=1), budget=2400, shard=9)))
         if op.startswith(("remap", "rewire")):
+            items.append((op, [[0, 1]], False, Q, dict(params=dict(m=0, follow=1))))       # the empty mapping
             items.append((op, [[0, 0], [0, 0]], False, T, dict(params=dict(m=2, follow=1), budget=2400, shard=8)))
         items.append((op, [[1, 0]], False, T, dict(params=dict(m=1, follow=2), budget=2400, shard=8)))
     return shape_jobs(items, tier, {op: ["derived"] for op in OPS})
